@@ -378,7 +378,7 @@ func replayLedger(res *vh.Result, in *lrInput, b *lrBehaviour, km kindMap) error
 	var hist []string
 	violate := func(pred, what string) {
 		res.Violate("ledger/"+pred, fmt.Sprintf("RecursionWorkLedger %s [mode=%s lazy=%v kinds=%s caps=%v] after calls %v: %s", pred, in.Mode, in.Lazy, km.name, in.Caps, hist, what),
-			map[string]any{"driver": "ledger-replay", "mode": in.Mode, "lazy": in.Lazy, "kinds": km.name, "caps": in.Caps, "behaviour": b.ID, "calls": hist})
+			map[string]any{"driver": "ledger-replay", "mode": in.Mode, "lazy": in.Lazy, "kinds": km.name, "caps": in.Caps, "behaviour": b.ID, "calls": hist, "behaviour_full": b})
 	}
 	tokens := map[int][]func(){} // per model process: retained release functions
 	held := 0
@@ -867,4 +867,80 @@ func stressRound(res *vh.Result, in *lsInput, round int, km kindMap, seed int64)
 	}
 	lines = append(lines, endLine)
 	return lines, nil
+}
+
+// ---- cap race: the first debits of a tree, released together -----------------------
+type lcInput struct {
+	Rounds int `json:"rounds"`
+	Procs  int `json:"procs"`
+}
+
+// TestLedgerCapRace targets the one window the stress rarely hits: several
+// goroutines debiting the same fresh counter at the same instant.  Each round
+// makes a new ledger with cap 1..3, spins G goroutines on a start flag and
+// lets each debit a few times; accepted debits must equal min(cap, attempts)
+// and the counter must say the same.
+func TestLedgerCapRace(t *testing.T) {
+	var in lcInput
+	vh.Input(t, &in)
+	res := vh.NewResult()
+	defer res.Write(t)
+	rng := vh.Rand()
+	for round := 0; round < in.Rounds; round++ {
+		capv := 1 + rng.Intn(3)
+		km := kindMaps[round%len(kindMaps)]
+		caps := map[string]int{"out": capv, "int": 1 << 20, "key": 1 << 20}
+		mode := "enforce"
+		ledger := middleware.NewRecursionWorkLedger(policyFor(mode, caps, km))
+		kind := km.kinds["out"]
+		var (
+			start    atomic.Bool
+			accepted atomic.Int64
+			limited  atomic.Int64
+			other    atomic.Int64
+			wg       sync.WaitGroup
+		)
+		per := 1 + rng.Intn(2)
+		for g := 0; g < in.Procs; g++ {
+			wg.Add(1)
+			go func(best bool) {
+				defer wg.Done()
+				for !start.Load() {
+				}
+				for i := 0; i < per; i++ {
+					var err error
+					if best {
+						err = ledger.DebitBestEffort(kind)
+					} else {
+						err = ledger.Debit(kind)
+					}
+					switch resultOf(err) {
+					case "nil":
+						accepted.Add(1)
+					case "limit":
+						limited.Add(1)
+					default:
+						other.Add(1)
+					}
+				}
+			}(g%3 == 0)
+		}
+		start.Store(true)
+		wg.Wait()
+		attempts := in.Procs * per
+		want := min(capv, attempts)
+		c, _ := counterOf(ledger.Snapshot(), kind)
+		if int(accepted.Load()) != want || c != want || other.Load() != 0 || int(accepted.Load()+limited.Load()) != attempts {
+			res.Violate("ledger-race/AcceptedNeverExceedsCap",
+				fmt.Sprintf("RecursionWorkLedger AcceptedNeverExceedsCap under %d goroutines debiting a fresh counter together (cap %d, kinds=%s): %d of %d debits were accepted, the counter says %d, %d other results",
+					in.Procs, capv, km.name, accepted.Load(), attempts, c, other.Load()),
+				map[string]any{"driver": "ledger-race", "round": round, "seed": vh.Seed(), "procs": in.Procs, "cap": capv})
+			return
+		}
+		res.Count("debits", attempts)
+		if round%500 == 0 {
+			res.Case(fmt.Sprintf("race:%d:%d", capv, per))
+		}
+	}
+	res.Case("race:done")
 }
